@@ -168,7 +168,44 @@ def compile_run(tier, seed, d):
     return stats, errs, known, unconfirmed
 
 
-def run(prop, tier, seed, extra_props=(), also_hir=False, compile_layer=False):
+def det_run(tier, seed, d):
+    """C09: every case generated by 5+ separate processes (JSON / YAML, fresh / other location and cwd / in place)."""
+    for f in glob.glob(f'{d}/det_*.txt'):
+        os.remove(f)
+    per = 10 if tier == 'quick' else 250
+    reps = 2 if tier == 'quick' else 6
+
+    def go(i):
+        sh(f'{HARNESS} det --seed {seed} --n {per} --out {d} --shard {i} --reps {reps} > /dev/null 2>{d}/deterr_{i}.txt')
+    with ThreadPoolExecutor(16) as ex:
+        list(ex.map(go, range(16)))
+    stats = {'cases': 0, 'same': 0, 'diff': 0, 'processes': 0, 'generation_ok': 0, 'files_compared': 0, 'max_components': 0}
+    diffs = []
+    for i in range(16):
+        try:
+            lines = open(f'{d}/det_{i}.txt').read().split('\n')
+        except FileNotFoundError:
+            diffs.append(('-', f'shard {i} produced no output: ' + open(f'{d}/deterr_{i}.txt').read()[-400:], ''))
+            continue
+        for l in lines:
+            q = l.split('\t')
+            if len(q) < 4:
+                continue
+            stats['cases'] += 1
+            if q[1] == 'SAME':
+                stats['same'] += 1
+                stats['processes'] += int(q[3])
+                if q[2] == 'ok':
+                    stats['generation_ok'] += 1
+                    stats['files_compared'] += int(q[4]) * (int(q[3]) - 1)
+                stats['max_components'] = max(stats['max_components'], int(q[5]))
+            else:
+                stats['diff'] += 1
+                diffs.append((q[0], q[3], dehex(q[4])[:5000]))
+    return stats, diffs
+
+
+def run(prop, tier, seed, extra_props=(), also_hir=False, compile_layer=False, det_layer=False):
     t0 = time.time()
     out = Outcome(prop)
     d = rundir(prop)
@@ -178,7 +215,7 @@ def run(prop, tier, seed, extra_props=(), also_hir=False, compile_layer=False):
     cli_ok, cli_log = build_cli()
     ps = proof_side(prop)
     total = nontriv = files_equal = 0; feats = {}; samples = []; disagreements = []; oracle = []; known_seen = {}
-    hir_part = None; compile_part = None
+    hir_part = None; compile_part = None; det_part = None
     if not (har_ok and drv_ok and cli_ok):
         out.violation('build', {'what': 'harness, driver or CLI build failed', 'logs': {**logs, 'cli': cli_log}}, no_input=True)
     else:
@@ -207,6 +244,11 @@ def run(prop, tier, seed, extra_props=(), also_hir=False, compile_layer=False):
                         findings.append((cid, 'C02', '', f'rustc (class {cls}): {msg}', ''))
             compile_part = dict(crates=cstats, unconfirmed_expected_rejections=cunconf[:10],
                                 rule='crates emitted by the real CLI (profiles tame/rich/wild, examples on), `cargo check --lib --examples` against /verif/standins + real serde, serde_json, chrono, tokio; an error outside the files the compile oracle expects to be rejected is a violation')
+        if det_layer:
+            dstats, ddiffs = det_run(tier, seed, d)
+            for cid, msg, spec in ddiffs:
+                findings.append((cid, 'C09', '', msg, spec))
+            det_part = dict(dstats, rule='corpus (alias chains, unsorted paths, many components) then generated (spec, config) pairs (profiles big/rich/tame); per case: JSON into a fresh directory, YAML into a directory at another depth from another working directory, JSON again in place over the first tree, then more JSON runs in fresh directories - every run a separate process with its own hash seeds; all exits and all trees must be identical byte for byte')
         mine = (prop,) + tuple(extra_props)
         for cid, p, cls, msg, spec in findings:
             if p not in mine:
@@ -241,7 +283,7 @@ def run(prop, tier, seed, extra_props=(), also_hir=False, compile_layer=False):
                evaluations=total, distinct_nontrivial=nontriv, files_compared_equal=files_equal,
                rule='corpus then generated (spec, config) pairs: specs as in the HIR engine (rich profile; every third shard wild), configs = service names of one or more words, 0-4 derive strings over simple/nested/padded/duplicate/un-tokenisable, examples on/off; every file of every emitted crate is compared with the predicted file; non-trivial = at least one feature fired; distinct by input text',
                samples=samples, feature_histogram=feats, disagreements_checked=len(disagreements), oracle_failures=len(oracle),
-               known_findings_seen={k: len(v) for k, v in known_seen.items()}, proof_problems=ps['problems'], hir_level=hir_part, compile_level=compile_part,
+               known_findings_seen={k: len(v) for k, v in known_seen.items()}, proof_problems=ps['problems'], hir_level=hir_part, compile_level=compile_part, determinism_level=det_part,
                totality_hypotheses=dict(WF, note='Spec/Wf.v hir_ok (depth 60) evaluated on every table the model extracts: t = C01_emission_total applies, f = it does not (f_but_generated: the implementation produced a crate anyway), x = extraction itself returned an error'))
     write_evidence(prop, tier, seed, 'proof', cov, time.time() - t0, len(out.violations),
                    assumptions=['names and documentation are ASCII or UTF-8 text; trimming is modelled for ASCII white space'])
